@@ -1,7 +1,8 @@
 (* Props/C05.v — Every due task is eventually dispatched: no lost or stranded wake-up. *)
 From GK Require Import SysCheck.
 From GK.Proofs Require Import SysSmall.
-From GK.Proofs Require SysProofs RestProofs.
+From GK.Proofs Require SysProofs RestProofs VSysProofs VRestProofs.
+From GK Require Import VSys.
 
 (* a consumed fire is never simply lost: either a task is announced, or the scheduler records that the timer
    has to be restarted (the next Step stops and starts it again) *)
@@ -70,3 +71,21 @@ Theorem C05_unstarted_refuted :
   RestProofs.rest_report RestProofs.cex_rest_unstarted = (None, true, true, (false, true, true, true), false, None).
 Proof. exact RestProofs.C05_rest_unstarted_refuted. Qed.
 Print Assumptions C05_unstarted_refuted.
+
+(* ---- the same for the cron configuration (Proofs/VRestProofs.v): for every schedule function and EVERY scheduler
+   configuration, at rest (Step in its select, no fire pending) no pending occurrence is due, provided the user has
+   started the timer of the present store - which is necessary in every reachable rest state (VC05_unstarted_strands) *)
+Theorem C05_cron_at_rest_nothing_is_due : forall nxt sc tr s,
+  VSysProofs.vrun nxt sc vsys_init tr = Some s -> VRestProofs.vtimer_started tr = true ->
+  vs_pc s = PSelect -> tm_pending (cr_timer (vs_cron s)) = false ->
+  forall p, In p (cr_pending (vs_cron s)) -> inst (vs_now s) < inst (t_sched (pt_task p)).
+Proof. exact VRestProofs.VC05_rest_no_due. Qed.
+Print Assumptions C05_cron_at_rest_nothing_is_due.
+
+Theorem C05_cron_predicate_holds_at_rest : forall nxt sc tr pending now s,
+  let tr' := (tr ++ [VDump pending now true])%list in
+  VSysProofs.vrun nxt sc vsys_init tr' = Some s -> VRestProofs.vtimer_started tr' = true ->
+  tm_pending (cr_timer (vs_cron s)) = false ->
+  vc05_ok tr' = true.
+Proof. exact VRestProofs.VC05_predicate_at_rest. Qed.
+Print Assumptions C05_cron_predicate_holds_at_rest.
